@@ -57,8 +57,27 @@ func asInt32(src string) string {
 // x := 5  declares an int in Go; goatlang's int is int32
 var intLitDecl = regexp.MustCompile(`(\b\w+) := (-?\d+)([;\n ])`)
 
-// goatRun loads src as package main into a fresh VM and calls main.main.
-func goatRun(src string) (out string, err error) {
+// goatRun loads src as package main into a fresh VM and calls main.main; a run that does not finish
+// within 20 s is reported as an error (the goroutine is abandoned).
+func goatRun(src string) (string, error) {
+	type res struct {
+		out string
+		err error
+	}
+	ch := make(chan res, 1)
+	go func() {
+		o, e := goatRunRaw(src)
+		ch <- res{o, e}
+	}()
+	select {
+	case r := <-ch:
+		return r.out, r.err
+	case <-time.After(20 * time.Second):
+		return "", fmt.Errorf("GOATLANG DID NOT TERMINATE within 20s")
+	}
+}
+
+func goatRunRaw(src string) (out string, err error) {
 	var buf bytes.Buffer
 	vm := g.New(g.WithStdout(&buf))
 	defer func() {
